@@ -86,7 +86,12 @@ pub fn build(quick: bool) -> PropRun {
             let env = LwEnv { fates: &[Fate::Deliver, Fate::Drop, Fate::Dup, Fate::Delay3], deltas: &[20, 2000], dev_rounds: dev, dev_start: 0, max_rounds: if big { 2500 } else { 400 }, skip_choice: false, flush_choice: false, blackouts: &[],
                               stop_when_idle: true, fair_delta: 20, slow_after: usize::MAX, slow_delta: 250, fuel: 5_000_000, shifts: &[] };
             let stops = if big { 6 } else if quick { 10 } else { 24 };
-            scs.push(lw_scenario_tracked(&format!("C19.lw.{}", pname), cfg.clone(), script, env, if big || quick { 1 } else { 2 }, stops));
+            scs.push(lw_scenario_tracked(&format!("C19.lw.{}", pname), cfg.clone(), script.clone(), env.clone(), if big || quick { 1 } else { 2 }, stops));
+            // the same on a warm connection, where all fragments of a packet leave in one flush and a lost one is resent last
+            if !big {
+                let mut envw = env.clone(); envw.dev_start = 8; envw.max_rounds += 8;
+                scs.push(lw_scenario_tracked(&format!("C19.lw-warm.{}", pname), cfg.clone(), crate::lwprops::warm(&script, 8), envw, if quick { 1 } else { 2 }, 0));
+            }
         }
     }
     // endpoint world: client / server dropped in every lifecycle state
